@@ -147,7 +147,9 @@ APPEND = {
  'C08': ('; the cube side is stated on the event-list layer regenerated from the vectorised source (translator/vectrans.py)',
          ' T-tie: gen_adjacent_bins_additive, gen_adjacent_bins_additive_init, gen_edge_event_lower (Props/C08Gen.lean).', ''),
  'C07': ('', ' T-tie also of the sums of pulse profiles, count spectra and MDP map cubes: gen_pp_iadd_eq_model, gen_pp_iadd_comm, gen_pp_iadd_assoc, gen_pha1_iadd_eq_model, gen_mdpcube_iadd_eq_model.', ''),
- 'C06': ('', ' delta_phi_ampl_eq_stokes: the amplitude / phase flavour of the spurious-modulation correction equals the Stokes flavour, for negative amplitudes too.', ''),
+ 'C06': ('; the rotation covariance is also stated on the event-list layer regenerated from the vectorised source (translator/vectrans.py)',
+         ' delta_phi_ampl_eq_stokes: the amplitude / phase flavour of the spurious-modulation correction equals the Stokes flavour, for negative amplitudes too. '
+         'gen_rotation_covariant, gen_row_rotation_invariant (Props/C06Gen.lean): weights, acceptance correction and the event-by-event 1/mu do not break the covariance of the generated sums and row.', ''),
  'C10': ('; _time_header_keywords, time_selected, phase_selected and average_deadtime_per_event are regenerated from the source (imperative translator over RealLike: optional values, '
          'dictionary with literal keys, unbound names as failure) and proved equal to the model',
          ' T-tie: gen_time_header_keywords_eq_model (32 combinations of present / missing bounds × algorithm), gen_time_kw_spec; an observation straddling MET 0 with bounds exactly 0.0.', ''),
